@@ -65,6 +65,8 @@ class Contract:
         self.ghost_updates = {}
         self.may_raise_exprs = []
         self.check_frame = True
+        self.hooks = {}
+        self.check_raises = False
         self.exc_ensures = []  # clauses that must hold at every exceptional exit
         self.trusted = False  # contract assumed, body not checked (external / out of reach)
         self.trusted_reason = None
@@ -132,6 +134,17 @@ class Contract:
 
     def may_raise(self, exc, when=None, ensures=None, name=None):
         self.raises.append(RaisesSpec(exc, when, ensures, name))
+        return self
+
+    def hook(self, stmt_text, updates):
+        """Ghost update executed right after the statement whose source text (ast.unparse) equals stmt_text."""
+        key = ast.unparse(ast.parse(stmt_text).body[0])
+        self.hooks[key] = {k: ast.parse(v, mode="eval").body for k, v in updates.items()}
+        return self
+
+    def strings(self, **kw):
+        for k, v in kw.items():
+            self.lets[k] = ast.Constant(value=v)
         return self
 
     def assume_(self, name, expr, why):
